@@ -28,8 +28,12 @@ St(j) == [sess |-> ToSet(j.sess), marks |-> ToSet(j.marks),
           marker |-> [s \in ToSet(j.sess) |-> (CHOOSE p \in ToSet(j.marker) : p[1] = s)[2]],
           rev |-> j.rev, cexp |-> j.cexp, maxs |-> j.maxs]
 LssOf(js) == [k \in {js[i].k : i \in 1..Len(js)} |-> St((CHOOSE x \in ToSet(js) : x.k = k).st)]
+\* encodings: a list of [key, envelope, payload] triples
+EncsOf(js) == [k \in {js[i][1] : i \in 1..Len(js)} |->
+                  LET t == CHOOSE x \in ToSet(js) : x[1] = k IN EncR(t[2], t[3])]
 SnapsOf(js) == [i \in 1..Len(js) |-> [ridx |-> js[i].ridx, li |-> js[i].li, base |-> St(js[i].base),
-                                      retained |-> ToSet(js[i].retained)]]
+                                      retained |-> ToSet(js[i].retained),
+                                      fmt |-> js[i].fmt, renc |-> EncsOf(js[i].renc)]]
 PendOf(j) == IF j.none = 1 THEN None
              ELSE [first |-> j.first, last |-> j.last, li |-> j.li, base |-> St(j.base), ridx |-> j.ridx]
 
@@ -48,6 +52,9 @@ PostOK(ev) ==
         /\ exp' = P.exp
         /\ snaps' = SnapsOf(P.snaps)
         /\ pending' = PendOf(P.pending)
+        /\ enc' = P.enc
+        /\ renc' = EncsOf(P.renc)
+        /\ ienc' = EncsOf(P.ienc)
 
 Act(ev) ==
     CASE ev.ev = "Apply"        -> ApplyE(Ent(ev.e))
@@ -59,6 +66,7 @@ Act(ev) ==
       [] ev.ev = "PersistFail"  -> PersistFail
       [] ev.ev = "Restore"      -> Restore
       [] ev.ev = "Restart"      -> Restart
+      [] ev.ev = "RestartEnc"   -> RestartWithEncoding(ev.enc)
       [] ev.ev = "Tick"         -> TickTo(ev.now)
       [] OTHER -> FALSE
 
@@ -68,7 +76,9 @@ Reset(ev) ==
     /\ store' = {} /\ outs' = {} /\ srv' = EMPTY /\ lss' = EmptyFn /\ exp' = 0
     /\ pending' = None /\ snaps' = << >> /\ up' = TRUE /\ hmax' = -1
     /\ now' = 0
-    /\ cnt' = [snap |-> 0, fail |-> 0, restart |-> 0, restore |-> 0, panic |-> 0]
+    /\ enc' = ev.enc /\ ienc' = EmptyFn
+    /\ renc' = [i \in 1..Len(ev.prelude) |-> Written(ev.enc, Ent(ev.prelude[i]))]
+    /\ cnt' = [snap |-> 0, fail |-> 0, restart |-> 0, restore |-> 0, panic |-> 0, mig |-> 0]
     /\ hist' = << >>
 
 \* adopt what the implementation did
@@ -87,7 +97,10 @@ Resync(ev) ==
        THEN /\ applied' = P.applied /\ store' = ToSet(P.store) /\ outs' = ToSet(P.outs)
             /\ srv' = St(P.srv) /\ lss' = LssOf(P.lss) /\ exp' = P.exp
             /\ snaps' = SnapsOf(P.snaps) /\ pending' = PendOf(P.pending)
-       ELSE UNCHANGED <<applied, store, outs, srv, lss, exp, snaps, pending>>
+            /\ enc' = P.enc /\ renc' = EncsOf(P.renc) /\ ienc' = EncsOf(P.ienc)
+       ELSE \* the process died inside the step (ApplyPanics): nothing was recorded
+            /\ UNCHANGED <<applied, store, outs, srv, lss, exp, snaps, pending, enc, ienc>>
+            /\ renc' = IF Len(log') > Len(log) THEN Append(renc, Marked(Written(enc, Ent(ev.e)))) ELSE renc
 
 TraceInit ==
     /\ Init
